@@ -185,6 +185,40 @@ def validate (c : IrCalc) : Res Bool :=
   else if c.curveType = 1 then .ok (validateSevenPoint c)
   else .error .panic
 
+/-! ### migration of a legacy curve to the seven-point form (`migrate_curve`, permissionless) -/
+
+/-- `milli_to_u32`: clamp to [0, 1000 %], divide by 10, scale to the u32 grid (all roundings downward) -/
+def milliToU32 (v : Int) : Int :=
+  let c := max (min v TEN) 0
+  let ratio := Int.tdiv (c * ONE) TEN
+  ((ratio * (U32MAX * ONE)) / ONE) / ONE
+
+/-- `centi_to_u32`: clamp to [0, 100 %], scale to the u32 grid -/
+def centiToU32 (v : Int) : Int :=
+  let c := max (min v ONE) 0
+  let ratio := Int.tdiv (c * ONE) ONE
+  ((ratio * (U32MAX * ONE)) / ONE) / ONE
+
+/-- the interest part of `migrate_curve`: the configuration must validate before; a seven-point curve is left alone; a
+    legacy curve (optimal, plateau, max) becomes zero-rate 0, ONE point (optimal, plateau) and full-utilisation rate max —
+    each on the u32 grid, rates CLAMPED to the grid's 1000 % ceiling — and must validate again -/
+def migrateCurve (c : IrCalc) : Res IrCalc := do
+  let ok ← validate c
+  if !ok then .error (.err 6015)      -- InvalidConfig
+  else if c.curveType = 1 then .ok c
+  else
+    let c' : IrCalc :=
+      { optimal := 0, plateau := 0, maxIr := 0,
+        insFixed := c.insFixed, insRate := c.insRate, grpFixed := c.grpFixed, grpRate := c.grpRate,
+        progFixed := c.progFixed, progRate := c.progRate, addProgramFees := c.addProgramFees,
+        zeroRate := 0,
+        hundredRate := milliToU32 c.maxIr,
+        points := [⟨centiToU32 c.optimal, milliToU32 c.plateau⟩, ⟨0, 0⟩, ⟨0, 0⟩, ⟨0, 0⟩, ⟨0, 0⟩],
+        curveType := 1 }
+    do
+      let ok' ← validate c'
+      if !ok' then .error (.err 6015) else .ok c'
+
 /-! ### accrual arithmetic -/
 
 /-- `calc_accrued_interest_payment_per_period` -/
